@@ -152,7 +152,7 @@ class Contract:
     def __init__(self, file, qual, *, params=None, result=None, requires=None, ensures=None,
                  raises=None, raises_iff=True, may_raise=(), modifies=None, exc_safe=False,
                  inline=False, loops=None, props=(), ghost=None, self_cls=None, trusted=False,
-                 note="", dispatch=None, spec_defs=None, lemmas=None, exc_safe_if=None):
+                 note="", dispatch=None, spec_defs=None, lemmas=None, exc_safe_if=None, closure=None):
         self.file, self.qual = file, qual
         self.params = params or {}
         self.result = result
@@ -163,6 +163,7 @@ class Contract:
         self.may_raise = tuple(may_raise)     # exceptions that may be raised with unspecified condition
         self.modifies = modifies or {}
         self.exc_safe = exc_safe
+        self.closure = closure or {}        # free variables of a nested function: name -> type | ('nested', qualname)
         self.exc_safe_if = exc_safe_if      # condition under which a raising call leaves the heap unchanged (assumed at call sites when exc_safe itself is a known finding)
         self.inline = inline
         self.loops = loops or {}
